@@ -1596,22 +1596,51 @@ func (s *Session) interfere(fr *Frame, cc *ssa.CallCommon, st *State, instr *ssa
 				}
 			}
 		}
-		before := st.clone()
-		for g := range s.eng.db.Ghosts {
-			s.havocHeap(st, "X:"+g, ghostSort(s.eng.db.Ghosts[g]))
-		}
-		se := &SpecEnv{sess: s, pkg: fr.fn.Pkg.Pkg, vars: s.frameEnv(fr), st: st, old: before, fr: fr}
-		if instr != nil {
-			idx := -1
-			for i, in := range instr.Block().Instrs {
-				if in == ssa.Instruction(instr) {
-					idx = i
-				}
-			}
-			se.lookup = s.localLookupAt(fr, st, instr.Block(), idx)
-		}
-		s.assume(Imp(st.Reach, s.evalBool(se, itf.Pred.E)))
+		s.applyInterference(fr, itf, st, instr)
 		s.note("%s: interference by concurrent requests assumed before each call of %s under the rely `%s`", fr.fn.String(), name, itf.Pred.Src)
+	}
+}
+
+func (s *Session) applyInterference(fr *Frame, itf Interference, st *State, instr *ssa.Call) {
+	before := st.clone()
+	for g := range s.eng.db.Ghosts {
+		s.havocHeap(st, "X:"+g, ghostSort(s.eng.db.Ghosts[g]))
+	}
+	se := &SpecEnv{sess: s, pkg: fr.fn.Pkg.Pkg, vars: s.frameEnv(fr), st: st, old: before, fr: fr}
+	if instr != nil {
+		idx := -1
+		for i, in := range instr.Block().Instrs {
+			if in == ssa.Instruction(instr) {
+				idx = i
+			}
+		}
+		se.lookup = s.localLookupAt(fr, st, instr.Block(), idx)
+	}
+	s.assume(Imp(st.Reach, s.evalBool(se, itf.Pred.E)))
+}
+
+// interfereAtLock: `interfere ... unless held L` protects the shared state only WHILE L is held; whatever this
+// thread read before it acquired L may be stale by the time it holds L (other threads ran in between), so the same
+// interference is applied at every acquisition of L.
+func (s *Session) interfereAtLock(fr *Frame, lockID string, st *State, instr *ssa.Call) {
+	if fr.contract == nil {
+		return
+	}
+	for _, itf := range fr.contract.Interf {
+		if itf.Lock == "" {
+			continue
+		}
+		se := &SpecEnv{sess: s, pkg: fr.fn.Pkg.Pkg, vars: s.frameEnv(fr), st: st, old: fr.old, fr: fr}
+		e, err := parseSpec(itf.Lock)
+		if err != nil {
+			continue
+		}
+		loc, err2 := s.evalAddr(se, e)
+		if err2 != nil || loc.Kind+":"+loc.TypeKey+":"+loc.Path != lockID {
+			continue
+		}
+		s.applyInterference(fr, itf, st, instr)
+		s.note("%s: interference by concurrent requests assumed at the acquisition of %s under the rely `%s`", fr.fn.String(), itf.Lock, itf.Pred.Src)
 	}
 }
 
